@@ -8,7 +8,7 @@ import re
 import numpy as np
 
 _BOX = re.compile(r"\(\(\s*(-?\d+(?:\s*,\s*-?\d+)*)\s*\)\s*\(\s*(-?\d+(?:\s*,\s*-?\d+)*)\s*\)\s*\(\s*(-?\d+(?:\s*,\s*-?\d+)*)\s*\)\)")
-_FABTAIL = re.compile(rb"\(\((-?\d+(?:,-?\d+)*)\) \((-?\d+(?:,-?\d+)*)\) \((-?\d+(?:,-?\d+)*)\)\) (\d+)\n$")
+_FABTAIL = re.compile(rb"\(\((-?\d+(?:,-?\d+)*)\) \((-?\d+(?:,-?\d+)*)\) \((-?\d+(?:,-?\d+)*)\)\) (\d+)[ \t]*\n$")
 
 
 class RefError(Exception):
